@@ -98,7 +98,7 @@ def extIdents (toc0 : Toc) : List Nat := (toc0.elems.filter (·.extended)).map (
 
 theorem refreshDone_some (toc0 : Toc) (x0 : ExtF) (h : refreshDone toc0 = .ok (some x0)) :
     x0 = { queue := extIdents toc0, reqParam := none, count := (extIdents toc0).length, locked := false,
-           toc := toc0, done := 0 } ∧ 0 < (extIdents toc0).length := by
+           toc := toc0, done := 0, active := true } ∧ 0 < (extIdents toc0).length := by
   unfold refreshDone at h
   simp only [] at h
   split at h
@@ -113,22 +113,25 @@ theorem xinit_inv (toc0 : Toc) (pers : Nat → Bool) (x0 : ExtF) (h : refreshDon
     XInv (extIdents toc0) toc0 pers ⟨x0, [], []⟩ := by
   obtain ⟨hx, hpos⟩ := refreshDone_some toc0 x0 h
   subst hx
-  refine XInv.idle _ 0 (Nat.zero_le _) ?_ (by simp) ?_ (by simp) rfl rfl (by simp)
+  have hne : (0 : Nat) ≠ (extIdents toc0).length := by omega
+  refine XInv.idle _ 0 (Nat.zero_le _) ?_ (by simp) ?_ (by simp) rfl rfl (by simp) ?_
   · show toc0 = _
     rw [mapElems_id_of]
     intro e _
     simp [markIf, Pk]
   · show 0 = _
-    have : (0 : Nat) ≠ (extIdents toc0).length := by omega
-    simp [this]
+    simp [hne]
+  · show true = _
+    simp [hne]
 
 theorem xinv_result (toc0 : Toc) (pers : Nat → Bool) (hnd : (toc0.elems.map (·.ident)).Nodup) (s : XSys)
     (hi : XInv (extIdents toc0) toc0 pers s) :
     s.x.done ≤ 1 ∧ (s.x.done = 1 → s.x.toc = toc0.mapElems
       (fun e => if e.extended && pers e.ident then { e with persistent := true } else e)) := by
   cases hi with
-  | busy k hk htoc hcount hdone hpool hreq hlock hq hin => simp [hdone]
-  | idle k hk htoc hcount hdone hpool hreq hlock hq =>
+  | aborted _ hdone _ => simp [hdone]
+  | busy k hk htoc hcount hdone hpool hreq hlock hq hin _ => simp [hdone]
+  | idle k hk htoc hcount hdone hpool hreq hlock hq _ =>
     refine ⟨by rw [hdone]; split <;> omega, ?_⟩
     intro h1
     have hke : k = (extIdents toc0).length := by
